@@ -1,6 +1,7 @@
 """C01 — all writable filesystems implement one reference semantics.
 
-Theorems: lean/FsProofs/C01.lean (Ref preserves well-formedness; histories compose).
+Theorems: lean/FsProofs/C01.lean (Ref preserves well-formedness; histories compose);
+lean/FsProofs/MemRefines.lean, lean/FsProofs/OsRefines.lean (MemoryFS / OSFS as coded refine Ref).
 Correspondence = the property's quantifier on the real code: every backend is compared,
 step by step from identical pre-states, with Ref.step on verdict, value and resulting tree.
 """
@@ -9,8 +10,10 @@ from __future__ import annotations
 import vlib
 import fsharness as H
 from props import _stateful as S
+from props import _wrapexact as W
+from props import _osexact as X
 
-EXTRA_PROOF_MODULES = ("FsProofs.MemRefines",)
+EXTRA_PROOF_MODULES = ("FsProofs.MemRefines", "FsProofs.WrapRefines", "FsProofs.OsRefines")
 
 QUERY_ON_INVALID_OK = {"exists", "isdir", "isfile"}
 
@@ -45,7 +48,7 @@ def judge(rep, s, m):
         why = (why or "") + " reference tree not well-formed"
     if why:
         kindw = why.split(":")[0]
-        kc = S.known_class(s)
+        kc = S.known_class(s) or W.known_class(s)
         rep.violation(H.step_case(s, model=[list(mout), mtree]),
                       "%s.%s%r from tree %r — %s" % (s.kind, s.op[0], s.op[1:], [e[:2] for e in s.pre][:10], why),
                       found_input=True,
@@ -61,12 +64,10 @@ def judge_mem_exact(rep, s, m, before):
     why = None
     if impl != tuple(mout):
         why = "outcome: MemoryFS %s, transcription %s" % (impl, mout)
-    elif s.op[0] in ("copydir", "movedir") and s.post is not None:
-        # copy_dir (walker + bulk copier: directories first, then files) is abstracted to a
-        # tree-level merge in FsModel.Mem: entry order after a bulk copy is not modelled
-        if H.canon_tree(s.post) != H.canon_tree(H.dec_tree(mtree)):
-            why = "tree: MemoryFS %r, transcription %r" % ([e[:2] for e in H.canon_tree(s.post)][:10], [e[:2] for e in H.canon_tree(H.dec_tree(mtree))][:10])
-    elif s.post is not None and H.enc_tree(s.post) != mtree:
+    elif s.post is not None and (H.canon_tree(s.post) != H.canon_tree(H.dec_tree(mtree)) if s.op[0] in W.BULK_DIR
+                                 else H.enc_tree(s.post) != mtree):
+        # (entry ORDER after a bulk directory copy is not modelled: copy_dir creates the directories first
+        # and the files afterwards, FsModel.Mem merges in source entry order — compared as sets there)
         why = "tree/order: MemoryFS %r, transcription %r" % ([e[:2] for e in s.post][:10], [e[:2] for e in H.dec_tree(mtree)][:10])
     if why:
         rep.disagreements_checked += 1
@@ -88,13 +89,17 @@ def run(rep, tier, seed, deep=False):
         n_hist *= 3
     rep.rule = ("random mostly-valid histories (%d per backend x %d ops) on %s, plus every op over paths "
                 "{'',a,b,a/a,a/b,b/a} x all flags from every tree with <=3 nodes on mem/os; each step compared with "
-                "Ref.step (verdict, value, tree) from the identical pre-state; distinct = distinct (backend, op, pre-tree)"
+                "Ref.step (verdict, value, tree) from the identical pre-state; distinct = distinct (backend, op, pre-tree); "
+                "sub-mem / wrap-mem steps re-executed with PARENT snapshots and compared exactly with wrapm.step "
+                "(FsModel.Wrap over FsModel.Mem), plus a directed corpus (closed wrappers, root branches, climbing, "
+                "exception classes)"
                 % (n_hist, n_ops, S.WRITABLE))
     rep.assumptions = [
         "directory sizes, timestamps and listing order are outside the observable tree",
         "mount points are fixtures of a MountFS (removing/moving them is steered around)",
         "exists/isdir/isfile may answer False instead of raising on an invalid path",
-        "FTPFS is not explored (needs a server); OSFS behaviour is the kernel's",
+        "FTPFS is not explored (needs a server); OSFS behaviour is the kernel's, modelled by FsModel/Posix.lean "
+        "(no symlinks, no permissions, one device) and compared with the kernel on every run",
     ]
     try:
         steps = S.collect(S.WRITABLE, n_hist, n_ops, rng)
@@ -102,6 +107,7 @@ def run(rep, tier, seed, deep=False):
         ops = S.exhaustive_small_ops()
         for kind in (["mem", "os", "sub-mem"] if quick else ["mem", "os", "sub-mem", "sub-os", "mount-root", "multi", "wrap-mem"]):
             steps += S.exhaustive_steps(kind, trees, ops, limit=None)
+        steps += X.directed_steps()   # one step per branch of FsModel.Os the generators reach rarely
         rep.programs = len(set(s.hist_id for s in steps))
         for s, m in S.with_model(drv, steps):
             judge(rep, s, m)
@@ -111,6 +117,17 @@ def run(rep, tier, seed, deep=False):
         before = len(rep.violations)
         for s, m in zip(mem_steps, H.model_replies(drv, mem_steps, cmd="mem.step", sort_names=False)):
             judge_mem_exact(rep, s, m, before)
+        # SubFS (at x/y of a MemoryFS) and WrapFS(MemoryFS) are tied, *exactly*, to the functor model
+        # FsModel.Wrap over FsModel.Mem (`wrapm.step`): error class, listing order and the resulting tree of
+        # the PARENT MemoryFS, everything outside the sub-directory included (FsProofs/WrapRefines.lean
+        # proves that this model preserves refinement of Ref at every nesting depth); plus closed wrappers,
+        # ClosingSubFS.close, and the decided exception classes, from a directed corpus
+        n_wrap = W.judge_wrap_exact(rep, steps, drv, ref_judge=judge)
+        rep.extra["wrap_exact_steps"] = n_wrap
+        # OSFS / TempFS / SubFS(OSFS) are tied the same way to FsModel.Os (+ Posix, + the GENERATED errno
+        # table) and FsModel.OsSub: exact error class, exact tree up to entry order; the POSIX model
+        # itself is compared with the kernel, the extracted table with the live one
+        X.run_os_exact(rep, steps, drv)
         rep.sample({"backend": steps[0].kind, "op": H.op_json(steps[0].op), "impl": list(steps[0].impl[:2])})
         for s in steps[1::max(1, len(steps) // 5)][:5]:
             rep.sample({"backend": s.kind, "pre": [e[:2] for e in s.pre][:6], "op": H.op_json(s.op), "impl": list(s.impl[:2])})
@@ -119,6 +136,14 @@ def run(rep, tier, seed, deep=False):
 
 
 def replay(rep, case):
+    if case["case"].get("wrapm_kind"):
+        try:
+            W.replay_case(rep, case["case"], vlib.Driver())
+        finally:
+            H.cleanup_scratch()
+        return 1 if rep.violations else 0
+    if X.is_mine(case):
+        return X.replay(rep, case)
     kind, pre, op = H.case_to_step(case["case"])
     op = H.fix_op_bytes(op)
     b = H.build_state(kind, pre)
